@@ -22,6 +22,9 @@ HINT_VI = [b"qa", b"q", b"@a", b"3", b'"a', b"v", b"vl", b"\x1b", b"qaxq", b"2@a
 
 
 HINTKEYS = set(HINT_EMACS) | set(HINT_VI)
+# keys after which the library may keep something below the input for the rest of the call (what a completer said: usage,
+# messages, a list of candidates)
+STICKY = {b"\t", b"\x1b?"}
 
 
 def dwidth(s):
@@ -142,10 +145,14 @@ def project(cs, evs):
     out = [({"ev": "reset", "w": cs["w"], "h": cs["h"]}, {"ev": "reset"})]
     hintkey = False
     same = False      # the next wait belongs to the same edit as the previous one and nothing moved the frame on purpose
+    sticky = False
     for e in evs:
         ev = e["ev"]
         if ev == "session":
             same = False
+            sticky = False
+        if ev == "read" and bytes(e.get("bytes", [])) in STICKY:
+            sticky = True
         elif ev == "read" and 0x0c in e.get("bytes", []):
             same = False      # clear-screen
         if ev == "read":
@@ -164,7 +171,7 @@ def project(cs, evs):
             # below the input are its to use): a macro being recorded, a pending numeric argument or register, or the one-off
             # hint of the key just read
             ghost = (e.get("local", "") in ("", None) and not e.get("minibuf") and not e.get("rec") and not e.get("argset")
-                     and not e.get("regsel") and not hintkey)
+                     and not e.get("regsel") and not hintkey and not sticky)
             out.append(({"ev": "wait", "prompt": [[x[0], x[1]] for x in e["pglyphs"]], "buf": [[x[0], x[1]] for x in g],
                          "curidx": cur_indices(g, e["cur"]), "ghost": bool(ghost), "sametop": same},
                         {k: v for k, v in e.items() if k not in ("cells",)}))
@@ -239,6 +246,44 @@ def hint_cases(rng, n):
     return cases
 
 
+def comp_hint_cases(rng, n):
+    """what an application's completer says below the input: a usage string, one or several messages (the library joins them into
+    one hint of several rows), with or without candidates to list; the user asks for completion (Tab with nothing to insert, or the
+    listing command) and goes on editing: the frame must stay where it is and show the buffer"""
+    USAGE = ["", "usage: cmd [flags] <file>", "one\r\ntwo", "u" * 30]
+    MSGS = [[], ["no such file"], ["first message", "second message"], ["m1", "m2", "m3"], ["a message that is rather long, " * 2]]
+    cases = []
+    for ci in range(n):
+        mode = rng.choice(["emacs", "vi"])
+        prompt = rng.choice(["> ", "$ ", "top line\n> "])
+        usage, msgs = USAGE[ci % len(USAGE)], MSGS[(ci // len(USAGE)) % len(MSGS)]
+        if not usage and not msgs:
+            msgs = ["only message"]
+        listing = ci % 3 == 2 and mode == "emacs"      # (no default key lists completions in the Vi keymaps)
+        comp = {"cands": [{"v": "zeta%d" % i} for i in range(3)] if listing else [], "usage": usage, "msgs": msgs, "byword": False}
+        cs = {"id": "c04u-%d" % ci, "inputrc": ("set editing-mode vi\n" if mode == "vi" else "") + ("set usage-hint-always on\n" if ci % 2 else ""),
+              "w": 80, "h": 24, "prompt": prompt, "screen": True, "wrap": "none", "setups": [], "sessions": [], "comp": comp}
+        for si in range(3):
+            sess = []
+            buf = "\n".join(gen_text(rng, rng.randint(0, 60), "ascii") for _ in range(rng.choice([1, 1, 2])))
+            smode = "emacs" if mode == "emacs" else "vi-insert"
+            cs["setups"].append(setup(buf, len(buf), smode))
+            sess.append(SETUP_KEY)
+            ask = b"\x1b?" if listing else b"\t"
+            # keys that edit or move without opening a helper of their own (the menu keymap gives C-f a meaning of its own)
+            pool = [b"\x01", b"\x05", b"\x02", b"\x02", b"\x1bb", b"\x0b", b"\x15", b"\x17", b"\x04", b"\x7f", b"x", b"y", "中".encode(), b" ", b"\x14", b"\x19"]
+            if mode == "vi":
+                pool = [b"\x7f", b"\x17", b"\x15", b"x", b"y", "中".encode(), b" ", b"\x7f"]
+            for _ in range(rng.randint(1, 3)):
+                sess.append(keys(ask))
+                for _ in range(rng.randint(1, 4)):
+                    sess.append(keys(rng.choice(pool)))
+            sess.append(keys(b"\r"))
+            cs["sessions"].append(sess)
+        cases.append(cs)
+    return cases
+
+
 def explain(ln, raw):
     line = "".join(map(chr, raw.get("line", []))) if isinstance(raw, dict) else ""
     return "after redisplay of buffer %r (cursor %s) the terminal shows %s with its cursor at row %s col %s" % (
@@ -300,6 +345,7 @@ def run(rep, tier, seed):
     model_check(rep, tier, os.path.join(wd, "mc"))
     cases = make_cases(rng, 150 if tier == "quick" else 2500, tier)
     cases += hint_cases(random.Random(seed * 31 + 5), 30 if tier == "quick" else 500)
+    cases += comp_hint_cases(random.Random(seed * 37 + 6), 20 if tier == "quick" else 300)
     log("C04: %d cases, %d Readline calls" % (len(cases), sum(len(c["sessions"]) for c in cases)))
     check(rep, cases, wd)
     rep.rule = ("seeded: widths {8,12,20,40,80} x heights {12,24,40} x prompts {none, plain, wide, two-line, coloured, row-filling} x buffers of "
